@@ -18,6 +18,7 @@ import (
 	"github.com/dadrus/heimdall/verif/props/c14"
 	"github.com/dadrus/heimdall/verif/props/c15"
 	"github.com/dadrus/heimdall/verif/props/c16"
+	"github.com/dadrus/heimdall/verif/props/c17"
 	"github.com/dadrus/heimdall/verif/props/c18"
 	"github.com/dadrus/heimdall/verif/props/c19"
 	"github.com/dadrus/heimdall/verif/props/c20"
@@ -43,6 +44,7 @@ func main() {
 		c14.Check(),
 		c15.Check(),
 		c16.Check(),
+		c17.Check(),
 		c18.Check(),
 		c19.Check(),
 		c20.Check(),
